@@ -103,6 +103,13 @@ fn constructors(rep: &mut Report, x: u64, cls: &str, r: &mut Rng) {
             }
         }
     }
+    // --- the unsafe constructors, called only where their precondition (a valid address) holds
+    if canon && unsafe { VirtAddr::new_unsafe(x) }.as_u64() != x {
+        rep.violation("VirtAddr::new_unsafe|altered-valid", ctx());
+    }
+    if phys_ok(x) && unsafe { PhysAddr::new_unsafe(x) }.as_u64() != x {
+        rep.violation("PhysAddr::new_unsafe|altered-valid", ctx());
+    }
     // --- PhysAddr
     let pok = phys_ok(x);
     match PhysAddr::try_new(x) {
